@@ -4,10 +4,14 @@ from ..common import hx, CONFIGS, run_harness, build_harness
 from .. import registry
 from .gens import key_for
 
-RULE = ("hist scripts: random 5..60 construct/clone/drop/enc/dec/multi-block ops over 1..5 named instances of mixed types; every "
+RULE = ("hist scripts: random 5..60 construct/convert (13 Enc/Dec/clone routes of AES and Kuznyechik)/clone/drop/enc/dec/multi-block ops over 1..5 named instances of mixed types; every "
         "result is compared with the result of a freshly constructed cipher on the same input (separate lines); thr lines: "
         "4..16 threads sharing one instance while constructing their own, each in a FRESH process (first use races CPU "
         "feature detection), compared with single-threaded results; non-trivial = distinct scripts with >= 2 instances")
+
+
+ROUTES = ["c.from_e", "c.from_eref", "d.from_e", "d.from_eref", "c.clone", "e.clone", "d.clone", "c.clone_from_e", "d.clone_from_e",
+          "c.from_eclone", "d.from_eclone", "e.new", "d.new"]
 
 
 def run(chk, tier):
@@ -38,6 +42,16 @@ def run(chk, tier):
                 iid = f"i{r.below(ninst)}"
                 cmds.append(f"n:{iid}:{e['name']}:{hx(k)}")
                 inst[iid] = (e, k)
+            elif c == 3 and step % 2 == 0:
+                # an instance obtained by conversion / clone routes (Enc -> combined / Dec, by value or by reference)
+                fam = r.choice(["Aes128", "Aes192", "Aes256", "Kuznyechik"])
+                route = r.choice(ROUTES)
+                tname = fam if route.startswith("c.") else fam + ("Enc" if route.startswith("e.") else "Dec")
+                e = next(x for x in reg if x["name"] == tname)
+                k = r.bytes(e["ks"])
+                iid = f"i{r.below(ninst)}"
+                cmds.append(f"r:{iid}:{fam}:{route}:{hx(k)}")
+                inst[iid] = (e, k)
             elif c == 1:
                 src = r.choice(sorted(inst))
                 if inst[src][0]["name"] == "Xtea":
@@ -54,7 +68,7 @@ def run(chk, tier):
             else:
                 iid = r.choice(sorted(inst))
                 e, k = inst[iid]
-                kind = r.choice(["e", "d", "E", "D"])
+                kind = r.choice([x for x in ["e", "d", "E", "D"] if x.lower() in e["caps"]])
                 nb = 1 if kind in "ed" else 1 + r.below(12)
                 data = r.bytes(e["bl"] * nb)
                 cmds.append(f"{kind}:{iid}:{hx(data)}")
